@@ -1985,6 +1985,23 @@ class UFunc:
     def outer(self, a, b, **kw):
         return san(self._ufunc.outer(asarray(a), asarray(b), **kw), self.name + ".outer")
 
+    def at(self, a, indices, b=None):
+        """unbuffered in-place operation `a[indices] op= b`: repeated indices accumulate (numpy's own routine on the object array)"""
+        if not isinstance(a, np.ndarray):
+            raise Modelled(TypeError("first operand must be array"))
+        if isinstance(indices, (list, tuple)) and all(not isinstance(i, (list, tuple, np.ndarray, slice)) for i in indices) and not isinstance(indices, tuple):
+            indices = np.asarray([int(P(i)) for i in indices], dtype=int)
+        bb = asarray(b) if isinstance(b, (np.ndarray, list, tuple)) else b
+        if a.dtype != object and isinstance(bb, np.ndarray) and bb.dtype == object:
+            raise Undecided("ufunc.at: symbolic values into a numeric array")
+        if a.dtype == object and isinstance(bb, np.ndarray) and bb.dtype != object:
+            bb = to_obj(bb)
+        try:
+            self._ufunc.at(a, indices, bb)
+        except (IndexError, ValueError, TypeError) as e:
+            raise Modelled(e)
+        return None
+
 
 def _np_any(a, axis=None, **kw):
     if isinstance(a, np.ndarray) and a.dtype == object:
